@@ -51,6 +51,10 @@ CHECKS = [
         "Verdict/plumbing layer only. (i) the exact verdict loops ILLfct_check_dfeasible / ILLfct_check_pfeasible under contract with inductive loop invariants (dfcc): FEASIBLE is answered only if no position violates the sign / bound condition (stated at a ghost position; position map capped at 64 entries); (ii) bounded contract checks of ILLbasis_load (status codes -> internal vstat/baz/nbaz/vindex, one basic variable per row position) and of QSload_basis / QSload_basis_array (well-formed bases accepted and stored entry by entry).",
         NOTE + "Not decided: that the exact basic solution of a basis (B^-1 b, computed by the LU code) is what the verdict functions evaluate -- simplex/LU are out of reach (see C13); the 'infeasible => some position violates' direction of the verdict loops (existential), QSexact_basis_* wrappers unless listed in the evidence.",
         TECH, "DESIGN.md 4/C12"),
+    chk("C13", "other",
+        "Extraction/ordering layer ONLY: bounded contract checks (2x2, arbitrary column bijection) that ILLlib_tableau hands out the requested inverse row in row order and the tableau row in external column order (structural j from internal column structmap[j], row i's logical from rowmap[i]) and that ILLlib_basis_order reports the external index of each basic column; loop-free proofs that QSget_binv_row / QSget_tableau_row / QSget_basis_order fail without a cached solution (basis, index range) and compute nothing then.",
+        NOTE + "NOT decided: the LU arithmetic itself -- ILLfactor, ftran/btran, ILLfactor_update, ILLbasis_tableau_row (B^-1 B = I for every update history, singular matrices reported): these are stubs here; a change inside factor.c is not detected by this check.",
+        TECH, "DESIGN.md 4/C13"),
     chk("C14", "proof",
         "Frame half ('writing does not consume the basis'): QSwrite_basis under contract with an empty assigns/frees clause on everything reachable from the problem (dfcc), loops of the basis conversion closed by loop contracts, symbolic basis sizes up to 30000; the problem's basis, status and factorization flag are unchanged whatever the writer returns.",
         NOTE + "Not decided: the textual round trip (ILLlib_writebasis / ILLlib_readbasis: file text, name lookup), only listed where a group for it appears in the evidence.",
@@ -59,6 +63,10 @@ CHECKS = [
         "Bounded contract check of QScopy_prob (nstruct <= 3, loops completely unwound, everything else symbolic): independent (no pointer member of the copy's pricing info equals the source's, source untouched) and faithful (rows handed over in one block, k-th column receives the k-th structural column's entries, objective, bounds, name, integer mark; sense, display/scaling, pricing rules copied).",
         NOTE + "Not decided: conversion accuracy of the reduced-precision copies (GMP's mpq_get_d / mpf_set_q), what ILLlib_newrows/addcol do with their arguments (C06).",
         TECH, "DESIGN.md 4/C16"),
+    chk("C17", "other",
+        "Memory-safety / undefined-behaviour half, per function under contract: the union of the bounds, pointer, pointer-overflow, signed-overflow, conversion, shift, division-by-zero, frame (assigns/frees) and unwinding obligations of EVERY obligation group of every property (each function listed in the evidence, with the bound of its host group).",
+        NOTE + "Not decided: safety of functions not under contract (simplex, pricing, LU, presolve, writers, most of the readers), uninitialised-value flow through them, whole call sequences beyond what the well-formedness preconditions carry, and bit-identical reproducibility across processes (a property of two executions).",
+        TECH, "DESIGN.md 4/C17"),
     chk("C20", "proof",
         "QSlogv contract (handler installed => handler called exactly once with the complete message, no fprintf/perror on a returning path; symbolic message length), QSwrite_prob (stdout only on request, open failure is an error), non-interactive reader never prompts; plus a static enumeration over the goto binaries of ALL library translation units (3 instantiations): every call site of a libc writer and every mention of stdout/stderr must be an audited site whose justification obligation holds.",
         NOTE + "Not decided: the sites audited as 'assumed' (debug printers behind TRACE-guarded calls are checked for the guard; console editor output; EGioClose pointer comparison); writes through streams the host itself passes in.",
@@ -73,4 +81,4 @@ NOT_APPLICABLE = [
     {"property_id": "C09", "reason": "same as C08 for the MPS format"},
     {"property_id": "C15", "reason": "relation between two solves of different inputs (2-safety); not a single-call contract"},
 ] + [{"property_id": p, "reason": _NYB} for p in
-     ["C13", "C17", "C18", "C19"]]
+     ["C18", "C19"]]
